@@ -17,6 +17,7 @@ import (
 
 	sdk "github.com/cosmos/cosmos-sdk/types"
 	authtypes "github.com/cosmos/cosmos-sdk/x/auth/types"
+	banktypes "github.com/cosmos/cosmos-sdk/x/bank/types"
 
 	"github.com/irismod/service/types"
 )
@@ -126,7 +127,7 @@ func (h *Host) TakeSnapshot(ctx sdk.Context) *Snap {
 	for _, kv := range s.Raw {
 		s.parseKV(kv.K, kv.V)
 	}
-	h.app.BankKeeper.IterateAllBalances(ctx, func(addr sdk.AccAddress, c sdk.Coin) bool {
+	noteBal := func(addr sdk.AccAddress, c sdk.Coin) bool {
 		if c.Denom == "stake" {
 			if c.Amount.IsInt64() {
 				s.Bal[hx(addr)] = c.Amount.Int64()
@@ -140,7 +141,30 @@ func (h *Host) TakeSnapshot(ctx sdk.Context) *Snap {
 			s.OtherDenoms[hx(addr)] += c.String()
 		}
 		return false
-	})
+	}
+	func() {
+		defer func() {
+			if recover() == nil {
+				return
+			}
+			// the bank keeper cannot walk its own store once coins sit at an address shorter than 20 bytes (only
+			// code under test that pays a malformed address gets there): read the balances raw instead, so that the
+			// oracles see where the money went
+			s.Bal, s.OtherDenoms = map[string]int64{}, map[string]string{}
+			bit := sdk.KVStorePrefixIterator(ctx.KVStore(h.app.GetKey(banktypes.StoreKey)), banktypes.BalancesPrefix)
+			defer bit.Close()
+			for ; bit.Valid(); bit.Next() {
+				var c sdk.Coin
+				k := bit.Key()[len(banktypes.BalancesPrefix):]
+				if err := c.Unmarshal(bit.Value()); err != nil || !bytes.HasSuffix(k, []byte(c.Denom)) {
+					s.perr("bank balance record unreadable: %x", bit.Key())
+					continue
+				}
+				noteBal(sdk.AccAddress(append([]byte{}, k[:len(k)-len(c.Denom)]...)), c)
+			}
+		}()
+		h.app.BankKeeper.IterateAllBalances(ctx, noteBal)
+	}()
 	sup := h.app.BankKeeper.GetSupply(ctx).GetTotal().AmountOf("stake")
 	if sup.IsInt64() {
 		s.Supply = sup.Int64()
